@@ -9,6 +9,7 @@ CONSTANTS
   DropWhenFull = TRUE
   Requeue = FALSE
   AtomicSwap = TRUE
+  EarlyExit = FALSE
   CtxInOpen = TRUE
 INVARIANTS TypeOK P_X08_Bounded P_X08_Subsequence P_X08_Conservation P_X08_LossOnlyOnFailure P_X08_DropOnlyWhenFull
 PROPERTIES P_X08_CompleteWhenNoFailure P_X08_DeliveredWhenHealthy
